@@ -31,6 +31,7 @@ pub fn world() -> Hierarchy<Arc<Relation>> {
     let orders: Relation = Relation::table().name("orders").schema(vec![
         ("id", DataType::integer_interval(0, 10000), Some(PK)), ("user_id", DataType::integer_interval(0, 1000), None),
         ("amount", DataType::float_interval(0., 100.), None), ("qty", DataType::integer_interval(0, 10), None),
+        ("bal", DataType::integer_interval(-50, 20), None),   // a range whose negative side dominates
     ].into_iter().collect::<qrlew::relation::Schema>()).size(10000).build();
     let products: Relation = Relation::table().name("products").schema(vec![
         ("pid", DataType::integer_interval(0, 100), Some(PK)), ("price", DataType::float_interval(0., 50.), None),
